@@ -281,7 +281,7 @@ impl Property for C14 {
         40_000
     }
     fn random_cases(&self, tier: Tier) -> u64 {
-        tier.pick(30_000, 500_000)
+        tier.pick(200_000, 1_000_000)
     }
     fn run(&self, t: &mut Tape, ctx: &mut CaseCtx) -> Verdict {
         let tr = gen_tree(t);
